@@ -101,6 +101,13 @@ fn literal_values() -> gen::VS {
                 }
                 Value::Object(m)
             }),
+            // a valid operation plus one annotation-like member (comment, schema, id ...): two keys, hence a literal
+            2 => (select(gen::OP_NAMES.to_vec()), vec(member.clone(), 0..=3), select(vec!["//", "$comment", "comment", "_comment", "#", "description", "$schema", "$id", "id", "name", "title", "meta", "doc", "note", "version", "enabled", "type", "else", "then"]), prop_oneof![Just(json!("adults only")), Just(Value::Null), Just(json!(true)), Just(json!({"var": "a"}))]).prop_map(|(k1, v1, ann, av)| {
+                let mut m = Map::new();
+                m.insert(k1.to_string(), Value::Array(v1));
+                m.insert(ann.to_string(), av);
+                Value::Object(m)
+            }),
             // every key an operator name, every value an array (looks like several rules merged into one object)
             1 => (select(gen::OP_NAMES.to_vec()), select(gen::OP_NAMES.to_vec()), proptest::option::of(select(gen::OP_NAMES.to_vec())), vec(member.clone(), 0..=3), vec(member.clone(), 0..=3)).prop_map(|(k1, k2, k3, v1, v2)| {
                 let mut m = Map::new();
